@@ -276,6 +276,13 @@ class Ctx:
                     # ... or the parameter itself (a graph or any collection of node ids)
                     if isinstance(n.iter, ast.Name) and n.iter.id in params[1:]:
                         ok = True
+                    # ... or a local collection built from the nodes of a dag parameter (`ids = set(dag.nodes); ids |= ...`)
+                    if isinstance(n.iter, ast.Name) and n.iter.id not in params:
+                        for d in env.local_defs().get(n.iter.id, []):
+                            v = d[1] if len(d) > 1 and isinstance(d[1], ast.AST) else None
+                            if v is not None and any(isinstance(x, ast.Attribute) and x.attr == 'nodes' and isinstance(x.value, ast.Name)
+                                                     and x.value.id in params for x in ast.walk(v)):
+                                ok = True
             if not ok:
                 continue
             calls_err = False
